@@ -7,6 +7,7 @@ use crate::model::*;
 use crate::tape::Tape;
 use ommx::v1;
 use serde_json::json;
+use std::collections::BTreeMap;
 use std::sync::atomic::{AtomicU64, Ordering};
 
 pub struct C19;
@@ -18,9 +19,43 @@ fn load_text(text: &str) -> Result<v1::Instance, String> {
     let _ = std::fs::create_dir_all(dir);
     let p = dir.join(format!("c19-{}-{}.qplib", std::process::id(), COUNTER.fetch_add(1, Ordering::SeqCst)));
     std::fs::write(&p, text).map_err(|e| format!("io: {e}"))?;
-    let r = ommx::qplib::load_file(&p).map_err(|e| format!("{e:#}"));
+    // Display (with causes), and when that does not carry a line number the Debug rendering of each error of the chain
+    // (cheap, unlike anyhow's own Debug): the statement asks for errors "carrying the line number", not for a wording
+    let r = ommx::qplib::load_file(&p).map_err(|e| {
+        let d = format!("{e:#}");
+        if d.to_lowercase().contains("line") {
+            d
+        } else {
+            format!("{d} || {}", e.chain().map(|c| format!("{c:?}")).collect::<Vec<_>>().join(" | "))
+        }
+    });
     let _ = std::fs::remove_file(&p);
     r
+}
+
+/// Does the rendered error carry line number `line`? Accepted: the word "line" (any case, also `line_num`,
+/// `line no.`, `line:` ...) followed within a few non-digit characters by exactly that number.
+fn carries_line(e: &str, line: usize) -> bool {
+    let low = e.to_lowercase();
+    let b = low.as_bytes();
+    let mut i = 0;
+    while let Some(pos) = low[i..].find("line") {
+        let mut j = i + pos + 4;
+        let mut skipped = 0;
+        while j < b.len() && !b[j].is_ascii_digit() && skipped < 12 && b[j] != b'\n' {
+            j += 1;
+            skipped += 1;
+        }
+        let start = j;
+        while j < b.len() && b[j].is_ascii_digit() {
+            j += 1;
+        }
+        if j > start && low[start..j].parse::<usize>().ok() == Some(line) {
+            return true;
+        }
+        i = i + pos + 4;
+    }
+    false
 }
 
 fn code_name(code: usize) -> String {
@@ -33,10 +68,28 @@ fn check_loaded(qp: &Qp, inst: &v1::Instance, what: &dyn Fn() -> String) -> PRes
         return fail("C19/variable-count", format!("{} variables, file declares {}: {}", inst.decision_variables.len(), qp.n, what()));
     }
     let ev = expected_vars(qp);
+    // The statement does not fix an id scheme: the k-th variable of the file is matched with the variable of k-th
+    // smallest id (the SDK uses the 0-based index today; a 1-based or gapped numbering would be as good). Ids must be distinct.
+    let mut sorted_ids: Vec<u64> = inst.decision_variables.iter().map(|v| v.id).collect();
+    sorted_ids.sort_unstable();
+    if sorted_ids.windows(2).any(|w| w[0] == w[1]) {
+        return fail("C19/variable-id", format!("variable ids are not distinct: {sorted_ids:?}: {}", what()));
+    }
+    let rank: BTreeMap<u64, u64> = sorted_ids.iter().enumerate().map(|(k, id)| (*id, k as u64)).collect();
+    let by_rank = |f: &Option<v1::Function>| -> Result<Poly, u64> {
+        let p = Poly::from_opt_function(f);
+        let mut out = Poly::zero();
+        for (ids, c) in &p.terms {
+            let mut m = vec![];
+            for id in ids {
+                m.push(*rank.get(id).ok_or(*id)?);
+            }
+            out.add_term(m, c.clone());
+        }
+        Ok(out)
+    };
     for (i, (ty, lo, hi)) in ev.iter().enumerate() {
-        let Some(v) = inst.decision_variables.iter().find(|v| v.id == i as u64) else {
-            return fail("C19/variable-id", format!("no variable with id {i}: {}", what()));
-        };
+        let v = inst.decision_variables.iter().find(|v| v.id == sorted_ids[i]).unwrap();
         let (blo, bhi) = match &v.bound {
             Some(b) => (b.lower, b.upper),
             None => (f64::NEG_INFINITY, f64::INFINITY),
@@ -77,7 +130,10 @@ fn check_loaded(qp: &Qp, inst: &v1::Instance, what: &dyn Fn() -> String) -> PRes
     if inst.sense != want_sense {
         return fail("C19/sense", format!("sense {} but the file says {}: {}", inst.sense, if qp.maximize { "maximize" } else { "minimize" }, what()));
     }
-    let obj = Poly::from_opt_function(&inst.objective);
+    let obj = match by_rank(&inst.objective) {
+        Ok(p) => p,
+        Err(id) => return fail("C19/undefined-variable-used", format!("the objective uses id {id}, which is no decision variable: {}", what())),
+    };
     let want = expected_objective(qp);
     if obj != want {
         // facet: diagonal entries
@@ -104,7 +160,10 @@ fn check_loaded(qp: &Qp, inst: &v1::Instance, what: &dyn Fn() -> String) -> PRes
         if c.equality != LE_ZERO {
             return fail("C19/constraint-equality", format!("constraint {} is not a <= 0 constraint: {}", c.id, what()));
         }
-        got.push(Poly::from_opt_function(&c.function));
+        got.push(match by_rank(&c.function) {
+            Ok(p) => p,
+            Err(id) => return fail("C19/undefined-variable-used", format!("constraint {} uses id {id}, which is no decision variable: {}", c.id, what())),
+        });
     }
     if got.len() != want_c.len() {
         return fail("C19/constraint-count", format!("{} constraints, expected {} (one per finite side): got {:?}, expected {:?}: {}", got.len(), want_c.len(), got.iter().map(|p| p.describe()).collect::<Vec<_>>(), want_c.iter().map(|p| p.describe()).collect::<Vec<_>>(), what()));
@@ -219,8 +278,8 @@ fn run_case(t: &mut Tape, code: usize, ctx: &mut Ctx) -> PResult {
             match load_text(&bad.text) {
                 Ok(_) => fail(format!("C19/error-accepted/{class}"), format!("malformed file accepted: {}", what())),
                 Err(e) => {
-                    if !e.contains(&format!("(at line {line})")) {
-                        return fail(format!("C19/error-line/{class}"), format!("error message {e:?} does not carry '(at line {line})': {}", what()));
+                    if !carries_line(&e, line) {
+                        return fail(format!("C19/error-line/{class}"), format!("error {e:?} does not carry line number {line}: {}", what()));
                     }
                     Ok(())
                 }
@@ -237,8 +296,8 @@ fn run_case(t: &mut Tape, code: usize, ctx: &mut Ctx) -> PResult {
                 match load_text(&trunc) {
                     Ok(_) => return fail("C19/truncation-accepted", format!("file truncated after line {k} of {} was accepted:\n{trunc}", lines.len())),
                     Err(e) => {
-                        if !e.contains(&format!("(at line {k})")) {
-                            return fail("C19/truncation-line", format!("file truncated after line {k}: error {e:?} does not carry '(at line {k})':\n{trunc}"));
+                        if !carries_line(&e, k) {
+                            return fail("C19/truncation-line", format!("file truncated after line {k}: error {e:?} does not carry line number {k}:\n{trunc}"));
                         }
                     }
                 }
